@@ -239,6 +239,15 @@ def _key(x, P):
                            np.ascontiguousarray(P, dtype=float).tobytes(), digest_size=16).digest()
 
 
+def _pos(orig, a, k):
+    """the argument values of a call of `orig` in the order of its parameters (the wrapped functions may be
+    called positionally or with keywords)"""
+    import inspect
+    b = inspect.signature(orig).bind(*a, **k)
+    b.apply_defaults()
+    return list(b.arguments.values())
+
+
 class Recorder:
     """wraps the numerical primitives of pyins.filters for one run"""
 
@@ -261,9 +270,10 @@ class Recorder:
                                 filters._compute_feedforward_result)
         rec = self
 
-        def correct(x, P, z, H, R):
+        def correct(*a_, **k_):
+            x, P, z, H, R = _pos(o_correct, a_, k_)[:5]
             snap = [np.array(a, dtype=float, copy=True) for a in (x, P, z, H, R)]
-            out = o_correct(x, P, z, H, R)
+            out = o_correct(*a_, **k_)
             rec.log.append(('corr', dict(x=snap[0], P=snap[1], z=snap[2], H=snap[3], R=snap[4],
                                          z_id=id(z), R_id=id(R),
                                          xo=np.array(out[0], copy=True), Po=np.array(out[1], copy=True),
@@ -271,8 +281,9 @@ class Recorder:
                                          modified=not all(np.array_equal(a, b) for a, b in zip(snap, (x, P, z, H, R))))))
             return out
 
-        def cpm(F, Q, dt):
-            out = o_cpm(F, Q, dt)
+        def cpm(*a_, **k_):
+            F, Q, dt = _pos(o_cpm, a_, k_)[:3]
+            out = o_cpm(*a_, **k_)
             rec.log.append(('cpm', dict(F=np.array(F, copy=True), Q=np.array(Q, copy=True), dt=float(dt),
                                         Phi=out[0], Qd=out[1])))
             return out
@@ -282,9 +293,10 @@ class Recorder:
             rec.P0 = np.array(P, copy=True)
             return P
 
-        def epm(pva, gyro, accel, time_delta, *a, **k):
+        def epm(*a_, **k_):
+            pva, gyro, accel, time_delta = _pos(o_epm, a_, k_)[:4]
             n0 = len(rec.log)
-            out = o_epm(pva, gyro, accel, time_delta, *a, **k)
+            out = o_epm(*a_, **k_)
             inner = [e for e in rec.log[n0:] if e[0] == 'cpm']
             rec.log.append(('epm', dict(pva=pva.copy(), gyro=None if gyro is None else np.array(gyro, dtype=float),
                                         accel=None if accel is None else np.array(accel, dtype=float),
@@ -293,10 +305,11 @@ class Recorder:
                                         same=bool(inner and out[0] is inner[-1][1]['Phi'] and out[1] is inner[-1][1]['Qd']))))
             return out
 
-        def res(x, P, trajectory_nominal, trajectory, *a, **k):
+        def res(*a_, **k_):
+            x, P, trajectory_nominal, trajectory = _pos(o_res, a_, k_)[:4]
             rec.ff = dict(x=np.array(x, copy=True), P=np.array(P, copy=True),
                           times=np.array(trajectory.index, dtype=float))
-            return o_res(x, P, trajectory_nominal, trajectory, *a, **k)
+            return o_res(*a_, **k_)
 
         kalman.correct = correct
         kalman.compute_process_matrices = cpm
@@ -313,8 +326,9 @@ class Recorder:
     def wrap_measurements(self, meas):
         for k, m in enumerate(meas or []):
             def wrap(orig, k):
-                def compute_matrices(time, pva, error_model):
-                    ret = orig(time, pva, error_model)
+                def compute_matrices(*a_, **k_):
+                    time, pva = _pos(orig, a_, k_)[:2]
+                    ret = orig(*a_, **k_)
                     if ret is not None:
                         self.meas_log.append((k, float(time), ret, pva.copy()))
                     return ret
